@@ -8,8 +8,8 @@ from ..report import Report
 PROP = "C13"
 
 
-def hist(n, ops):
-    return "c%d:p:cc\t" % n + "\t".join(ops)
+def hist(n, ops, layout="p"):
+    return "c%d:%s:cc\t" % (n, layout) + "\t".join(ops)
 
 
 def is_nop(mn, text):
@@ -30,7 +30,7 @@ def verify(rep, jobs, L, phase, variant):
             if c is not None:
                 ops.append("k%d" % c)
             ops.append("A" + hexec.esc("\n".join(L[l][0] for l in ls) + "\n"))
-        hs.append(hist(j["n"], ops))
+        hs.append(hist(j["n"], ops, j.get("layout", "p")))
     res = hexec.run(hs, variant=variant)
     gaps = {}
     pend = []
@@ -144,6 +144,16 @@ def run(tier, seed):
                     nontriv += 1
     verify(rep, jobs, L, "triple", variant)
     rep.bounds["cpl_triples"] = len(jobs)
+    rep.states += len(jobs)
+    # the chunk grid belongs to the buffer (position 0 = buffer start), not to the address space: the same triples on a
+    # caller buffer whose start address is not a multiple of the chunk size (250 bytes ending flush against a page end)
+    jobs = []
+    for c in (4, 8, 16, 32, 64):
+        for p in range(c):
+            for l in lens:
+                jobs.append({"start": p, "calls": [(c, [l])], "n": 250, "layout": "e"})
+    verify(rep, jobs, L, "triple-unaligned", variant)
+    rep.bounds["cpl_triples_unaligned_buffer"] = len(jobs)
     rep.states += len(jobs)
     alpha = [l for l in (1, 2, 3, 5, 7, 10, max(lens)) if l in L]
     if not rep.expired():
